@@ -24,7 +24,7 @@ from pbt.engine import Skip, Sub
 
 ID = "C08"
 RULE = (
-    "Hypothesis draws a scene: interior 3..6 cells per axis plus PML layers; each axis either a periodic/Bloch "
+    "Hypothesis draws a scene: interior 3..5 cells per axis plus PML layers; each axis either a periodic/Bloch "
     "pair (random phase) or two independent faces from {zero halo, PEC, PMC, PML(2..3 cells, default or "
     "kappa/alpha-graded)}; uniform or rectilinear grid; background + 0..2 boxes with isotropic / diagonal / full "
     "SPD-tensor eps and mu and optional scalar/diagonal/full sigma_E, sigma_H (cells under a plane source stay "
@@ -34,7 +34,7 @@ RULE = (
     "on/off switch; 1..3 detectors without co-location from {field, phasor (random component subsets), energy "
     "(volume, reduced, slices), Poynting flux (random axis, direction, reduced or not)} with random switches. The "
     "three orientations are run either with fdtdx.run_fdtd from zero fields or step by step (jit(scan(forward)), "
-    "detectors recording) from permuted wall-consistent random fields, 6..16 steps. Non-trivial = (a plane source "
+    "detectors recording) from permuted wall-consistent random fields, 6..14 steps. Non-trivial = (a plane source "
     "and >= 1 PML face) or a full 3x3 tensor material, and non-zero fields. Distinct = sha1 of the case JSON."
 )
 ASSUMPTIONS = [
@@ -226,18 +226,18 @@ def case_strategy(draw, ctx):
     for ax in range(3):
         thick = sum(faces[f"{s}_{AX[ax]}"].get("thickness", 0) for s in ("min", "max")
                     if faces[f"{s}_{AX[ax]}"]["kind"] == "pml")
-        shape.append(draw(st.integers(3, 6)) + thick)
+        shape.append(draw(st.integers(3, 5)) + thick)
     interior = scenes.interior_range(shape, faces)
     has_bloch = any(f["kind"] == "bloch" for f in faces.values())
-    grid = draw(scenes.grid_strategy(shape, faces, kinds=("uniform", "uniform", "uniform", "rect")))
-    steps = draw(st.integers(6, 16))
+    grid = draw(scenes.grid_strategy(shape, faces, kinds=("uniform", "uniform", "uniform", "uniform", "rect")))
+    steps = draw(st.integers(6, 14))
 
     # ---- sources --------------------------------------------------------------------------------
-    n_src = draw(st.sampled_from([1, 1, 2]))
+    n_src = draw(st.sampled_from([1, 1, 1, 2]))
     sources = []
     for i in range(n_src):
         if i == 0 and want_plane:
-            kinds = ("uniform_plane", "uniform_plane", "gaussian_plane")
+            kinds = ("uniform_plane", "uniform_plane", "uniform_plane", "gaussian_plane")
         elif flavour == "tensor":
             kinds = ("dipole_e", "dipole_m")
         else:
@@ -270,6 +270,8 @@ def case_strategy(draw, ctx):
         return t, mt
 
     bt, bmt = tiers(bool(planes))
+    if flavour == "tensor" and not planes:
+        bt = "full"
     background = _material(draw, bt, bmt, draw(st.integers(0, 3)) == 0)
     objects = []
     n_obj = draw(st.integers(1, 2)) if (flavour == "tensor" and planes) else draw(st.integers(0, 2))
@@ -296,11 +298,13 @@ def case_strategy(draw, ctx):
 
     # ---- detectors ------------------------------------------------------------------------------
     detectors = []
-    for i in range(draw(st.integers(1, 3))):
+    for i in range(draw(st.sampled_from([1, 1, 2, 2, 3]))):
         d = draw(scenes.detector_strategy(shape, steps, name=f"det{i}", exact=(False,)))
         if d["type"] == "poynting":
             d["keep_all"] = False
             d["fixed_axis"] = _thin(d)
+        if d["type"] == "phasor" and not scenes.switch_on_steps(d["switch"], steps):
+            d["switch"] = {}  # a phasor detector that never records is rejected at placement (documented)
         if d["type"] == "energy" and not d["reduce"] and draw(st.booleans()):
             d["as_slices"] = True
         detectors.append(d)
@@ -311,6 +315,12 @@ def case_strategy(draw, ctx):
     if has_bloch:
         spec["bloch_phase"] = [draw(st.sampled_from([0.0, 0.7, 1.9, -2.4, 3.14159])) for _ in range(3)]
     mode = draw(st.sampled_from(["stepped", "stepped", "run_fdtd"]))
+    if mode == "run_fdtd":  # zero initial fields: make sure the first source actually radiates
+        sources[0]["switch"] = {}
+        if sources[0]["profile"]["kind"] == "custom":
+            sources[0]["profile"] = {"kind": "cw"}
+        if sources[0]["type"] in ("dipole_e", "dipole_m"):
+            sources[0]["amp"] = abs(sources[0]["amp"])
     return {"scene": spec, "mode": mode, "field_seed": draw(st.integers(0, 2**31 - 1)),
             "percell_seed": draw(st.one_of(st.none(), st.integers(0, 2**31 - 1))),
             "dense": draw(st.sampled_from([1.0, 1.0, 0.1]))}
@@ -481,7 +491,7 @@ def _normalise(spec):
 
 
 SUBS = [
-    Sub(name="orientations", body=body, strategy=lambda ctx: case_strategy(ctx), quick=8, thorough=480,
+    Sub(name="orientations", body=body, strategy=lambda ctx: case_strategy(ctx), quick=5, thorough=400,
         lanes=("f64", "f32"), f32_fraction=0.25, quick_shards=2,
         rule="three cyclic orientations of a random scene; fields and raw detector records permute"),
 ]
